@@ -372,6 +372,9 @@ for (sid, rule) in [("C01", "T-get-immutable"), ("C02", "T-couple"), ("C03", "T-
 # round a6 (DESIGN 8.5h); C08-a6 and C14-a6 are not caught (numeric boundary / index arithmetic of one loop): kept as seeds, not registered
 for (sid, rule) in [("C01", "D3-mem"), ("C02", "L2-index"), ("C03", "D3"), ("C04", "T-fresh-if-missing"), ("C05", "E7-flow"), ("C06", "T-couple"), ("C07", "T-debt-repay"), ("C09", "T-perm-applied"), ("C10", "T-decode-fresh"), ("C11", "E6-pair"), ("C12", "T-refund-booked"), ("C13", "G-renew-shards"), ("C15", "T-decode-fresh"), ("C16", "G-inflight"), ("C17", "G-bind"), ("C18", "T-validate-map"), ("C19", "G-selfrec"), ("C20", "G-promote")]:
     P.append((f"S-{sid}-a6", sid, rule, f"/verif/seeded/{sid}-a6/patch.diff"))
+# round a7 (DESIGN 8.5i): ten properties, told about all seven earlier seeds
+for (sid, rule) in [("C02", "L1"), ("C05", "T-rollback-fields"), ("C06", "T-accrual-clock"), ("C07", "G-used"), ("C10", "G-bound"), ("C11", "G-retain"), ("C12", "T-exits"), ("C15", "T-splice-skip"), ("C17", "G-proof-addr"), ("C18", "E6-all")]:
+    P.append((f"S-{sid}-a7", sid, rule, f"/verif/seeded/{sid}-a7/patch.diff"))
 # refactor-of-seed composites on round-5 seeds (the new rules under a faithful refactoring)
 for (sid, rule) in [("C01-a5", "T-get-immutable"), ("C05-a5", "T-unschedule"), ("C06-a5", "T-remaining-term"), ("C08-a5", "T-settle-rebase"), ("C09-a5", "T-msg-immutable"),
                     ("C11-a5", "T-extend-meta"), ("C13-a5", "T-shard-owner"), ("C15-a5", "T-permute"), ("C16-a5", "T-status-forward"), ("C19-a5", "T-flag-reset")]:
@@ -380,8 +383,9 @@ for (sid, rule) in [("C01-a5", "T-get-immutable"), ("C05-a5", "T-unschedule"), (
 for (sid, rule) in [("C02-a6", "L2-index"), ("C04-a6", "T-fresh-if-missing"), ("C07-a6", "T-debt-repay"), ("C09-a6", "T-perm-applied"), ("C10-a6", "T-decode-fresh"),
                     ("C16-a6", "G-inflight"), ("C18-a6", "T-validate-map")]:
     P.append(("RS-" + sid, sid.split("-")[0], rule, f"/verif/refactored_seeds/{sid}/combined.diff"))
-# RS-C13-a6 (Renew split into loadRenewTarget -> renewableShards / renewData) is archived but not registered: G-renew-shards
-# is not decided there and G-renew (C09) raises a false alarm on it (DESIGN 8.6)
+# RS-C13-a6 (Renew split into loadRenewTarget -> renewableShards / renewData, failures handed back as a text compared with ""):
+# since the seventh session G-renew (C09) is silent on it (string-emptiness result tests); G-renew-shards says "not decided"
+P.append(("RS-C13-a6", "C13", "~undecided", "/verif/refactored_seeds/C13-a6/combined.diff"))
 import glob as _glob
 for d in sorted(_glob.glob("/verif/refactors/R[0-9][0-9]")):
     rid = os.path.basename(d)
